@@ -86,13 +86,21 @@ def sample(rng, axes=None, **fixed):
             return c
 
 
-def scaling_weights(rng, n, m, span=6):
+def scaling_weights(rng, n, m, span=6, degenerate=False):
     out = {"vw": [int(v) for v in rng.integers(-span, span + 1, size=n)],
            "cw": [int(v) for v in rng.integers(-span, span + 1, size=m)],
            "ow": int(rng.integers(-span, span + 1))}
     # (drawn from a stream of its own so that the weights themselves are the ones generated before this option existed)
     r2 = np.random.default_rng([n, m, span, abs(out["ow"]), 4711])
     out["dtype"] = str(r2.choice(["int64", "int64", "int32", "int16", "int8"]))
+    # degenerate weight patterns: only the objective scaled (all row weights zero), or only objective and rows scaled
+    u = r2.random() if degenerate else 1.0
+    if u < 0.15 and m > 0:
+        out["cw"] = [0] * m
+        if out["ow"] == 0:
+            out["ow"] = int(r2.choice([-1, 1])) * int(r2.integers(1, span + 1))
+    elif u < 0.25:
+        out["vw"] = [0] * n
     return out
 
 
